@@ -58,8 +58,13 @@ def gen_case(rng):
             # unbound tasks cannot be past the client side scheduler
             st = rng.choice([rps.NEW, rps.TMGR_SCHEDULING_PENDING,
                              rps.TMGR_SCHEDULING, rps.CANCELED, rps.FAILED])
+        # a task can carry an error record before it is final: a process
+        # which exited non-zero travels through output staging with its
+        # exception attached (and so do tasks with a failed staging step)
+        pre_exc = bind != 'none' and st not in rps.FINAL and \
+                  st != rps.DONE and rng.random() < 0.3
         tasks.append({'uid': 't.%d' % i, 'bind': bind, 'pilot': pid,
-                      'state': st})
+                      'state': st, 'pre_exc': pre_exc})
 
     # pilot trajectories: interleaved notifications
     events = list()
@@ -121,6 +126,11 @@ def run_case(case, res):
             d['pilot'] = t['pilot']
         if st in (rps.FAILED, rps.CANCELED):
             d['exception'] = 'orig(%s)' % t['uid'] if st == rps.FAILED else None
+        elif t.get('pre_exc'):
+            d['exception']        = 'RuntimeError("task failed")'
+            d['exception_detail'] = 'exit code: 3'
+            d['exit_code']        = 3
+            res.count('nonfinal_tasks_with_error_record')
         tm._update_tasks([d])
         if task.state != st:
             res.inconc('could not drive %s to %s' % (t['uid'], st))
